@@ -6,4 +6,4 @@ require github.com/fullstorydev/emulators/storage v0.0.0
 
 require google.golang.org/protobuf v1.36.6 // indirect
 
-replace github.com/fullstorydev/emulators/storage => /tmp/lockwt/storage
+replace github.com/fullstorydev/emulators/storage => /repo/storage
